@@ -24,6 +24,10 @@ func TestCheck(t *testing.T) {
 	if appsys.Part(t, env, run, "C08") {
 		return
 	}
+	// part "p" (positions_test.go): cluster.Peer.Position vs Model/Position.v; true = the replay file was a positions case
+	if positionsReplay(t, env) {
+		return
+	}
 	var css []sysrun.ClusterScenario
 	if env.Replay != "" {
 		var cs sysrun.ClusterScenario
@@ -74,4 +78,5 @@ func TestCheck(t *testing.T) {
 	if err := run.Finish("clusters of 1-3 real instances (all position assignments) under synctest with a scripted gossip router for notification-log entries (delay 0..2T, loss, duplication), crash/restart with and without log snapshot, alert timelines and receiver scripts; one case per (instance incarnation, group) = its event list including received merges; non-trivial = received a gossip merge and flushed"); err != nil {
 		t.Fatal(err)
 	}
+	positionsPart(t, env)
 }
